@@ -75,6 +75,9 @@ class C16(Prop):
                 ms = [r.choice([{"kind": "any", "paths": ["createdAt"]}, {"kind": "custom", "paths": ["createdAt"], "ret": "null"}])]
                 api = r.choice(["json", "standjson"])
                 docs = [mk(big[0], "2024-01-01"), mk(big[0], "2025-06-30"), mk(big[1], "2024-01-01")]
+                # two spellings of ONE number are the same JSON value: whether they store alike is the printer's business (tied by
+                # the model comparison), the property only speaks about inputs that differ
+                spelling = isinstance(big[0], str)
             else:
                 ast = J.gen_ast(r, maxdepth=3)
                 ps = pick_paths(r, ast, 4) if ast[0] in ("obj", "arr") else []
@@ -101,11 +104,13 @@ class C16(Prop):
                 api = r.choice(["json", "standjson"])
                 docs = [J.render(r, a, ws=r.chance(1, 2)).encode() for a in (ast, a2, a3)]
             form = lambda: r.choice(["string", "bytes"])
+            role3 = "unjudged" if locals().get("spelling") else "unmasked"
+            spelling = False
             env2 = r.choice([(False, "unset"), (True, "unset"), (False, "other")])
             ops = [G.op_match_doc(api, 0, t, docs[0], form(), ms), G.op_end(t), {"op": "dumpfs"}, {"op": "newprocess"},
                    G.op_setenv(env2[0], env2[1]),
                    dict(G.op_match_doc(api, 0, t, docs[1], form(), ms), role="masked"), G.op_end(t),
-                   dict(G.op_match_doc(api, 0, t, docs[2], form(), ms), role="unmasked"), {"op": "dumpfs"}]
+                   dict(G.op_match_doc(api, 0, t, docs[2], form(), ms), role=role3), {"op": "dumpfs"}]
             cases.append({"ci": False, "updvar": "unset", "colour": False, "ops": ops, "meta": {"api": api}})
         return cases
 
